@@ -51,7 +51,8 @@ impl Handler for NoSetterReturnHandler {
         ClassMethod(method) => {
           method.method_kind() == ast_view::MethodKind::Setter
         }
-        FnDecl(_) | FnExpr(_) | ArrowExpr(_) => false,
+        FnDecl(_) | FnExpr(_) | ArrowExpr(_) | GetterProp(_) | MethodProp(_)
+        | Constructor(_) | PrivateMethod(_) | StaticBlock(_) => false,
         _ => {
           if let Some(parent) = node.parent() {
             inside_setter(parent)
